@@ -2,12 +2,12 @@
 import ast
 
 from vstat.loader import AnalysisError
-from vstat.terms import builder, show, SELF, NONE, G, alts, walk, mentions, phi, galts
+from vstat.terms import IT, guarded_alts, builder, show, SELF, NONE, G, alts, walk, mentions, phi, galts
 from vstat.guards import path_conditions
 from vstat.cfg import cfg_of
 from vstat.sigs import bind
 from vstat import algebra
-from .c20 import swap_map
+from .c20 import swap_map, closed_series
 
 P = lambda n: ("param", n)
 EXPL = ("C17.swap: (x_idx, y_idx) = (1, 0) iff swap_axis else (0, 1); the abscissa series is column x_idx, the ordinate series column y_idx of "
@@ -58,8 +58,7 @@ def design(prog, rep):
 
     def closed(series, idx):
         col = ("col", coords, idx)
-        return series in (("call", G("numpy.append"), (col, ("sub", col, ("const", 0))), ()),
-                          ("call", G("numpy.concatenate"), (("tuple", (col, ("list", (("sub", col, ("const", 0)),)))),), ()))
+        return closed_series(series) in (col, ("call", ("attr", col, "tolist"), (), ()))
 
     rep.check(closed(x1, XI), "C17.swap", f"{q}:abscissae", site, "x1 = closed column x_idx, (x_idx, y_idx) = (1, 0) iff swap_axis",
               f"the abscissa series must be column x_idx of contour.coordinates closed with its own first element, x_idx = 1 iff swap_axis; found {show(x1)[:160]}")
@@ -101,7 +100,8 @@ def design(prog, rep):
                 oky = True
     rep.check(oky, "C17.probe", f"{q}:span", site, "probe ordinates [min(y1) - c max(y1), max(y1) + c max(y1)]", why)
     # result
-    ys = ("item", t, 1)
+    ys = IT(t, 1)
+    xs_ = IT(t, 0)
     fx = fy = None
     for s in cfg.all_stmts():
         if isinstance(s, ast.Expr) and isinstance(s.value, ast.Call) and isinstance(s.value.func, ast.Attribute) and s.value.func.attr == "append" and cfg.enclosing_loops(s):
@@ -114,21 +114,49 @@ def design(prog, rep):
                 rep.fail("C17.result", f"{q}:append", fn.where(s), f"a design condition must pair the requested abscissa with np.max of the intersection ordinates; appended {show(a)[:100]}")
     rep.check(fx is not None and fy is not None, "C17.result", f"{q}:pair", site, "(x2, np.max(y)) appended per abscissa",
               "each design condition must be (requested abscissa, largest intersection ordinate): np.max of the ordinates returned by intersection")
-    skip = [s for s in cfg.all_stmts() if isinstance(s, ast.Continue)]
-    oks = len(skip) == 1 and tuple(l for l in pcs.of(skip[0]) if l[0] == "cmp" and l[1] == "==") == (("cmp", "==", ("call", G("len"), (ys,), ()), ("const", 0)),) \
-        and fx is not None and fy is not None and skip[0].lineno < min(fx[0].lineno, fy[0].lineno)
-    rep.check(oks, "C17.result", f"{q}:skip", fn.where(skip[0]) if skip else site, "no intersection -> abscissa skipped", "an abscissa that does not cross the contour must be skipped (continue when len(y) == 0), before anything is appended")
+    # an abscissa is skipped iff the intersection is empty: the appends run exactly under "len(y) != 0" (whatever the spelling:
+    # continue on == 0, a positive guard, truthiness of the length); literals of assert statements are C17.all's business
+    from vstat.guards import literals as _lits
+    oks = fx is not None and fy is not None
+    skip_at = site
+    if oks:
+        asserted = set()
+        for s in cfg.all_stmts():
+            if isinstance(s, ast.Assert):
+                asserted |= set(_lits(b.term(s.test, s), True))
+        lp = cfg.enclosing_loops(fx[0])[-1]
+        outer = set(pcs.of(lp))
+        def nonempty(l):
+            for ser in (ys, xs_):
+                ln = ("call", G("len"), (ser,), ())
+                if l in (("not", ("cmp", "==", ln, ("const", 0))), ("cmp", "!=", ln, ("const", 0)), ("cmp", ">", ln, ("const", 0)),
+                         ("cmp", ">=", ln, ("const", 1)), ("cmp", "<", ("const", 0), ln), ("cmp", "<=", ("const", 1), ln), ln,
+                         ("not", ("cmp", "<", ln, ("const", 1))), ("not", ("cmp", "<=", ln, ("const", 0))), ("not", ("not", ln)),
+                         ("cmp", ">", ("attr", ser, "size"), ("const", 0)), ("attr", ser, "size")):
+                    return True
+            return False
+        for s_, _n in (fx, fy):
+            own = [l for l in pcs.of(s_) if l not in outer and l not in asserted]
+            if not own or not all(nonempty(l) for l in own):
+                oks = False
+                skip_at = fn.where(s_)
+    rep.check(oks, "C17.result", f"{q}:skip", skip_at, "no intersection -> abscissa skipped, any intersection -> recorded",
+              "an abscissa is skipped exactly when it does not cross the contour (len(y) == 0): the appends must run under 'the intersection is not empty' and under nothing else")
     rets = [s for s in cfg.all_stmts() if isinstance(s, ast.Return)]
     rt = b.term(rets[-1].value, rets[-1]) if rets else None
-    okr = rt is not None and rt[0] == "cols" and len(rt[1]) == 2 and fx is not None and fy is not None and isinstance(rets[-1].value, ast.Name)
+    okr = rt is not None and rt[0] == "cols" and len(rt[1]) == 2 and fx is not None and fy is not None
     if okr:
-        d = [s for s in cfg.all_stmts() if isinstance(s, ast.Assign) and isinstance(s.targets[0], ast.Name) and s.targets[0].id == rets[-1].value.id]
-        src = d[-1].value
-        okr = isinstance(src, ast.Subscript) and isinstance(src.slice, ast.Tuple) and [getattr(e, "id", None) for e in src.slice.elts] == [fx[1], fy[1]]
+        src = rets[-1].value
+        if isinstance(src, ast.Name):
+            d = [s for s in cfg.all_stmts() if isinstance(s, ast.Assign) and isinstance(s.targets[0], ast.Name) and s.targets[0].id == src.id]
+            src = d[-1].value if d else src
+        names = [n.id for n in ast.walk(src) if isinstance(n, ast.Name) and n.id in (fx[1], fy[1])]
+        pos = {(n.lineno, n.col_offset): n.id for n in ast.walk(src) if isinstance(n, ast.Name) and n.id in (fx[1], fy[1])}
+        okr = [pos[k] for k in sorted(pos)] == [fx[1], fy[1]]
     rep.check(okr, "C17.result", f"{q}:columns", fn.where(rets[-1]) if rets else site, "returns np.c_[abscissae, ordinates]",
               "the result must have the requested abscissae in column 0 and their ordinates in column 1")
     # C17.all: no assert / raise on the number of intersections
-    xs = ("item", t, 0)
+    xs = xs_
     bad = []
     for s in cfg.all_stmts():
         if isinstance(s, (ast.Assert, ast.Raise)) or (isinstance(s, ast.If) and any(isinstance(n, ast.Raise) for n in s.body)):
@@ -147,17 +175,20 @@ def design(prog, rep):
     mnx, mxx = ("sym", "minx"), ("sym", "maxx")
     spacer = None
     steps_defs = [d for d in b.rd.all_defs("steps") if d.kind == "assign"]
-    got = {}
+    got = []
     for d in steps_defs:
         tt = b.def_term(d)
         bd = bind(tt) if tt[0] == "call" and tt[1] == G("numpy.linspace") else None
         if bd:
-            kind = "none" if ("isnone", P("steps")) in pcs.of(d.stmt) else "int" if any(l[0] == "handler" for l in pcs.of(d.stmt)) else "?"
-            got[kind] = bd
-    ok = set(got) == {"none", "int"}
+            # the count may be chosen before the call (steps = 10 when None, then one shared linspace): split by its guards
+            for lits, num in guarded_alts(bd.get("num", ("const", 50))):
+                conds = set(pcs.of(d.stmt)) | set(lits)
+                kind = "none" if ("isnone", P("steps")) in conds else "int" if any(l[0] == "handler" for l in conds) else "?"
+                got.append((kind, dict(bd, num=num)))
+    ok = {k for k, _ in got} == {"none", "int"}
     why = "default abscissae not found for steps=None and steps=<int>"
     if ok:
-        for kind, bd in got.items():
+        for kind, bd in got:
             lo, hi = abstract_extrema(bd.get("start", NONE)), abstract_extrema(bd.get("stop", NONE))
             sp = None
             if lo is not None and lo[0] == "bin" and lo[1] == "+" and algebra.same(lo[2], mnx):
@@ -168,9 +199,9 @@ def design(prog, rep):
                 ok = False
                 why = f"steps={'None' if kind == 'none' else 'int'}: default abscissae must be linspace(min(x1)+spacer, max(x1)-spacer, num={'10' if kind == 'none' else 'steps'}, endpoint=True); found {({k: show(v)[:60] for k, v in bd.items()})}"
     rep.check(ok, "C17.default", f"{q}:linspace", fn.where(), "default abscissae span the contour's extent (inset by a spacer), num = 10 or the integer given", why)
-    it_ok = any(isinstance(s, ast.Expr) and b.term(s.value, s) == ("call", G("iter"), (P("steps"),), ()) for s in cfg.all_stmts())
+    it_ok = any(isinstance(s, ast.Expr) and any(a == ("call", G("iter"), (P("steps"),), ()) for _l, a in guarded_alts(b.term(s.value, s))) for s in cfg.all_stmts())
     lps = [s for s in cfg.all_stmts() if isinstance(s, ast.For)]
-    used = bool(lps) and P("steps") in alts(b.term(lps[0].iter, lps[0]))
+    used = bool(lps) and any(P("steps") in alts(a) for _l, a in guarded_alts(b.term(lps[0].iter, lps[0])))
     rep.check(it_ok and used, "C17.default", f"{q}:iterable", fn.where(), "an iterable of abscissae is used as is",
               "explicit abscissae (any iterable) must be used as given")
 
@@ -188,12 +219,21 @@ def inter(prog, rep):
     T = None
     if t[0] == "tuple" and len(t[1]) == 2:
         a0, a1 = t[1]
-        # xy0.T[:, 0], xy0.T[:, 1] with xy0 = T[2:, in_range]
-        if a0[0] == "col" and a1[0] == "col" and a0[1] == a1[1] and (a0[2], a1[2]) == (("const", 0), ("const", 1)):
-            base = a0[1]
-            if base[0] == "attr" and base[2] == "T" and base[1][0] == "sub" and base[1][2][0] == "tuple" and base[1][2][1][0] == ("slice", ("const", 2), NONE, NONE):
-                T = base[1][1]
-                mask = base[1][2][1][1]
+        # rows 0 and 1 of xy0 = T[2:, in_range], spelled xy0.T[:, k], xy0[k] or xy0[k, :]
+        def row(a):
+            if a[0] == "col" and a[1][0] == "attr" and a[1][2] == "T" and a[2][0] == "const":
+                return a[1][1], a[2][1]
+            if a[0] == "sub" and a[2][0] == "const":
+                return a[1], a[2][1]
+            if a[0] == "sub" and a[2][0] == "tuple" and len(a[2][1]) == 2 and a[2][1][0][0] == "const" and a[2][1][1] == ("slice", NONE, NONE, NONE):
+                return a[1], a[2][1][0][1]
+            return None, None
+        (b0, k0), (b1, k1) = row(a0), row(a1)
+        if b0 is not None and b0 == b1 and (k0, k1) == (0, 1):
+            base = b0
+            if base[0] == "sub" and base[2][0] == "tuple" and base[2][1][0] == ("slice", ("const", 2), NONE, NONE):
+                T = base[1]
+                mask = base[2][1][1]
                 ok = True
     rep.check(ok, "C17.inrange", f"{q}:solution", fn.where(rets[-1]), "returns rows 2 (x) and 3 (y) of the solved system for the in-range candidates",
               f"the crossing points must be the solved (x, y) rows of T restricted to the in-range candidates; found {show(t)[:160]}")
@@ -217,9 +257,13 @@ def inter(prog, rep):
         for c in parts:
             if c[0] == "cmp" and c[1] in (">=", "<=") and c[3][0] == "const":
                 row = None
-                for s in walk(c[2]):
-                    if s[0] == "const" and s[1] in (0, 1) and isinstance(s[1], int):
-                        row = s[1]
+                lhs = c[2]
+                if lhs[0] == "sub" and lhs[1] == T:
+                    ix = lhs[2]
+                    if ix[0] == "tuple" and len(ix[1]) == 2 and ix[1][1] == ("slice", NONE, NONE, NONE):
+                        ix = ix[1][0]
+                    if ix[0] == "const" and isinstance(ix[1], int):
+                        row = ix[1]
                 got.add((c[1], row, c[3][1]))
         okm = got == {(">=", 0, 0), (">=", 1, 0), ("<=", 0, 1), ("<=", 1, 1)} and len(parts) == 4 and all(mentions(c, T) for c in parts)
         why = f"a candidate is a crossing iff BOTH segment parameters lie in [0, 1]: t0 >= 0, t1 >= 0, t0 <= 1, t1 <= 1 (inclusive); found {sorted(map(str, got))}"
